@@ -293,6 +293,17 @@ func c14Run(ctx *core.Ctx, msize uint32, dotu bool, thorough bool) core.Result {
 
 		// ---- writes: model vs host file
 		wname := fmt.Sprintf("w%d", li)
+		if li%3 == 1 && msize >= 256 {
+			// some files sit deeper than one Twalk reaches: the client walks to them in several steps (the later ones
+			// in place) before it opens them for writing
+			deep := "deep"
+			for d := 0; d < 17+li%5; d++ {
+				deep = filepath.Join(deep, fmt.Sprintf("d%d", d))
+			}
+			_ = os.MkdirAll(filepath.Join(e.root, deep), 0o755)
+			wname = filepath.Join(deep, wname)
+			res.Count("files_written_below_17_or_more_directories", 1)
+		}
 		whost := filepath.Join(e.root, wname)
 		model := append([]byte{}, content...)
 		if err := os.WriteFile(whost, model, 0o644); err != nil {
@@ -709,6 +720,12 @@ func c15Cases(tier string, seed int64) []core.Case {
 			serverOffersDotu = true
 			defer func() { serverOffersDotu = false }()
 			return c15Run(ctx, n, false, false)
+		}})
+	}
+	for _, dotu := range []bool{true, false} {
+		dotu := dotu
+		cases = append(cases, core.Case{ID: fmt.Sprintf("listing-while-other-entries-come-and-go/dotu=%v", dotu), Run: func(ctx *core.Ctx) core.Result {
+			return c15Churn(ctx, dotu, map[string]int{"quick": 50, "thorough": 600}[tier])
 		}})
 	}
 	for _, dotu := range []bool{true, false} {
@@ -1527,5 +1544,127 @@ func c15Pipelined(ctx *core.Ctx, dotu bool) core.Result {
 	}
 	res.Count("continuation_batches_answered_while_offset0_read_in_progress", int64(overlapped))
 	res.Sample(map[string]interface{}{"scenario": "read at offset 0 in flight together with continuation reads on one directory fid", "entries": nent, "windows": len(ref), "dotu": dotu})
+	return res
+}
+
+// c15Churn: 1 200 files stay in the directory throughout; others are created and removed (on the host, as another
+// client or a local process would) while the directory is listed again and again. Every listing is whole records,
+// and every file that was there all the time is in it exactly once; the ones that come and go may or may not be.
+func c15Churn(ctx *core.Ctx, dotu bool, listings int) core.Result {
+	var res core.Result
+	e, err := newEnv(ctx, "c15churn", dotu, 1<<20)
+	if err != nil {
+		res.Inconclusive = err.Error()
+		return res
+	}
+	defer e.cleanup()
+	dir := filepath.Join(e.root, "busy")
+	_ = os.Mkdir(dir, 0o755)
+	const stable = 1200
+	for i := 0; i < stable; i++ {
+		_ = os.WriteFile(filepath.Join(dir, fmt.Sprintf("s%04d", i)), nil, 0o644)
+	}
+	stop := make(chan struct{})
+	churned := make(chan int, 1)
+	go func() {
+		n := 0
+		for {
+			for i := 0; i < 400; i++ {
+				_ = os.WriteFile(filepath.Join(dir, fmt.Sprintf("v%04d", i)), nil, 0o644)
+			}
+			for i := 0; i < 400; i++ {
+				_ = os.Remove(filepath.Join(dir, fmt.Sprintf("v%04d", i)))
+				n++
+			}
+			select {
+			case <-stop:
+				churned <- n
+				return
+			default:
+			}
+		}
+	}()
+	defer func() {
+		select {
+		case <-stop:
+		default:
+			close(stop)
+			<-churned
+		}
+	}()
+	rc, err := e.raw(65536, dotu)
+	if err != nil {
+		res.Inconclusive = err.Error()
+		return res
+	}
+	defer rc.Hangup()
+	rr := &rawc{c: rc}
+	if w := rr.rpc(&wire.Msg{Type: wire.Twalk, Fid: 0, Newfid: 9, Wname: []string{"busy"}}); w == nil || w.Type != wire.Rwalk {
+		res.Inconclusive = "c15 churn: walk failed"
+		return res
+	}
+	if o := rr.rpc(&wire.Msg{Type: wire.Topen, Fid: 9, Mode: 0}); o == nil || o.Type != wire.Ropen {
+		res.Inconclusive = "c15 churn: open failed"
+		return res
+	}
+	for l := 0; l < listings && len(res.Violations) == 0; l++ {
+		if l%10 == 0 {
+			ctx.Beat()
+		}
+		seen := map[string]int{}
+		off := uint64(0)
+		for {
+			rp := rr.rpc(&wire.Msg{Type: wire.Tread, Fid: 9, Offset: off, Count: 60000})
+			if rp == nil || rp.Type != wire.Rread {
+				res.Violate("C15;churn;read-error", fmt.Sprintf("listing %d: a read at the legal offset %d was answered %v", l, off, rp), nil)
+				break
+			}
+			if len(rp.Data) == 0 {
+				break
+			}
+			rest := rp.Data
+			for len(rest) > 0 {
+				st, n, derr := wire.DecodeStat(rest, dotu)
+				if derr != nil || n <= 0 {
+					res.Violate("C15;churn;torn-record", fmt.Sprintf("listing %d: the reply at offset %d does not consist of whole stat records", l, off), nil)
+					rest = nil
+					break
+				}
+				seen[st.Name]++
+				rest = rest[n:]
+			}
+			off += uint64(len(rp.Data))
+			if len(res.Violations) > 0 {
+				break
+			}
+		}
+		res.Evals++
+		if len(res.Violations) > 0 {
+			break
+		}
+		missing, twice := 0, 0
+		first := ""
+		for i := 0; i < stable; i++ {
+			nm := fmt.Sprintf("s%04d", i)
+			switch seen[nm] {
+			case 1:
+			case 0:
+				missing++
+				if first == "" {
+					first = nm
+				}
+			default:
+				twice++
+			}
+		}
+		if missing > 0 || twice > 0 {
+			res.Violate("C15;churn;stable-entries", fmt.Sprintf("listing %d of a directory in which other files come and go: of the %d files that were there all the time %d are missing (first %s) and %d are listed more than once; %d names in all", l, stable, missing, first, twice, len(seen)), nil)
+		}
+	}
+	close(stop)
+	n := <-churned
+	res.Count("entries_removed_while_listing", int64(n))
+	res.Sig(fmt.Sprintf("churn|%v", dotu))
+	res.Sample(map[string]interface{}{"scenario": "listing while other entries are created and removed", "stable_entries": stable, "listings": listings, "removed_meanwhile": n, "dotu": dotu})
 	return res
 }
